@@ -254,6 +254,23 @@ func mockCatalogue() []mockCase {
 			f.Messages[0].Fields[0].Ann.Rules = strRules(&validate.StringRules{MinLen: proto.Uint64(3)})
 			return f
 		}})
+	// response fields named and typed like request fields, with rules of their OWN that differ from the
+	// request's: whatever the request carried, the answer must satisfy the response's published schema
+	out = append(out, mockCase{ID: "mock/response-rules/fields-named-like-request-fields",
+		Seq: []mockReq{{`{"id":"A-1001","customerName":"Al","count":"5000","ratio":99.5,"note":"x"}`, true}, {`{"id":"abc"}`, true}, {`{}`, true},
+			{`{"id":"zz","customerName":"Bo","count":"-7","ratio":-2.5}`, true}, {`{"id":"A-1001","customerName":"Al","count":"5000","ratio":99.5}`, true}},
+		Build: func(pkg string) *spec.File {
+			idRule := strRules(&validate.StringRules{Pattern: proto.String("^[0-9a-f]{8}-[0-9a-f]{4}-[0-9a-f]{4}-[0-9a-f]{4}-[0-9a-f]{12}$")})
+			nameRule := strRules(&validate.StringRules{MinLen: proto.Uint64(3)})
+			countRule := &validate.FieldRules{Type: &validate.FieldRules_Int64{Int64: &validate.Int64Rules{GreaterThan: &validate.Int64Rules_Gte{Gte: 1}, LessThan: &validate.Int64Rules_Lte{Lte: 100}}}}
+			ratioRule := &validate.FieldRules{Type: &validate.FieldRules_Double{Double: &validate.DoubleRules{GreaterThan: &validate.DoubleRules_Gte{Gte: 1}, LessThan: &validate.DoubleRules_Lte{Lte: 5}}}}
+			rule := func(r *validate.FieldRules) func(a *spec.Ann) { return func(a *spec.Ann) { a.Rules = r } }
+			f := mockFile(pkg, []*spec.Field{spec.F("id", 1, spec.String).With(rule(idRule)), spec.F("customer_name", 2, spec.String).With(rule(nameRule)),
+				spec.F("count", 3, spec.Int64).With(rule(countRule)), spec.F("ratio", 4, spec.Double).With(rule(ratioRule)), spec.FM("order", 5, "."+pkg+".Order")},
+				&spec.Message{Name: "Order", Fields: []*spec.Field{spec.F("id", 1, spec.String).With(rule(proto.Clone(idRule).(*validate.FieldRules))), spec.F("customer_name", 2, spec.String).With(rule(proto.Clone(nameRule).(*validate.FieldRules)))}})
+			f.Messages[0].Fields = []*spec.Field{spec.F("id", 1, spec.String), spec.F("customer_name", 2, spec.String), spec.F("count", 3, spec.Int64), spec.F("ratio", 4, spec.Double), spec.F("note", 5, spec.String)}
+			return f
+		}})
 	return out
 }
 
@@ -453,7 +470,7 @@ func c20(c *Ctx) {
 						okAll = false
 						break
 					}
-					if n < 3 && op.Responses != nil {
+					if (n < 3 || u.mc.Seq != nil) && op.Responses != nil {
 						samples = append(samples, wireSample{caseID: caseID, docKey: u.f.Package + "/" + svc.Name, schema: closed(op.Responses["200"]), inst: t, what: "mock 200 response", proto: protoText, raw: string(resp.Body)})
 					}
 					for path := range u.mc.Examples {
